@@ -26,7 +26,8 @@ def thresholds(tier):
        "designs_with_pairs": 100, "rejections_checked": 16, "rejections_beside_a_legal_loop": 40, "opened_cycle_controls_accepted": 16, "greenlet_orderings_checked": 2000, "greenlet_designs": 60, "explicit_constraints_checked": 2000, "method_orderings_checked": 1500, "method_designs_with_required_orders": 80}
   if tier == "thorough":
     t = {k: v * 15 for k, v in t.items()}
-    t["rejections_checked"] = 100          # the rejection stream has a fixed size per shard
+    t["rejections_checked"] = 100          # the rejection streams have a fixed size per shard
+    t["rejections_beside_a_legal_loop"] = 40; t["opened_cycle_controls_accepted"] = 16
   return t
 
 
